@@ -783,14 +783,7 @@ class _Per:
                 runs = KNOWN_MULTIPLIER[t]                   # alphabet of the unconstrained type
         elif not inside:
             raise EncodeError('%s size %d outside %r..%r' % (t, n, lb, ub))
-        # 30.5.2: N characters -> b bits (UNALIGNED), rounded up to a power of two B (ALIGNED)
-        N = _runs_len(runs)
-        b = (N - 1).bit_length()
-        if self.aligned:
-            B = 1
-            while B < b:
-                B *= 2
-            b = B
+        b = self.char_bits(_runs_len(runs))                  # 30.5.2
         # 30.5.4: the character value itself if the largest one fits in b bits, else its index
         # in the canonical order of the effective permitted alphabet
         reindex = runs[-1][1] > (1 << b) - 1
@@ -807,6 +800,18 @@ class _Per:
             emit(buf, 0, n)
         else:                                                # 30.5.7: with length determinant
             self.with_length(buf, n, lb, ub, emit, 'chars' if aligned else None)
+
+    def char_bits(self, N):
+        """30.5.2: N characters in the effective permitted alphabet.  B = smallest integer with
+        2^B >= N: bits per character in the UNALIGNED variant; ALIGNED: B2 = smallest power of 2
+        that is >= B (1, 2, 4, 8, 16, 32; a one-character alphabet has B = 0 and B2 = 1)"""
+        b = (N - 1).bit_length()
+        if self.aligned:
+            b2 = 1
+            while b2 < b:
+                b2 *= 2
+            b = b2
+        return b
 
     def kmstring_aligned(self, fixed, ub, b):
         """is the bit-field of the characters octet-aligned (ALIGNED variant)?
